@@ -33,7 +33,10 @@ CTXS = [('fp.FP16', 'binary16', 'nearestEven'), ('fp.FP32', 'binary32', 'nearest
         ('fp.IEEEContext(8, 32, fp.RM.RTZ)', 'binary32', 'toZero'), ('fp.IEEEContext(5, 16, fp.RM.RTP)', 'binary16', 'toPositive'),
         ('fp.IEEEContext(11, 64, fp.RM.RTN)', 'binary64', 'toNegative'), ('fp.IEEEContext(4, 8)', '(float 4 8)', 'nearestEven'),
         ('fp.IEEEContext(5, 16, fp.RM.RAZ)', 'binary16', 'awayZero'), ('fp.IEEEContext(8, 32, fp.RM.RNA)', 'binary32', 'nearestAway'),
-        ('fp.IEEEContext(6, 20, fp.RM.RTZ)', '(float 6 20)', 'toZero')]
+        ('fp.IEEEContext(6, 20, fp.RM.RTZ)', '(float 6 20)', 'toZero'),
+        # interchange widths with a non-interchange exponent size: no shorthand may be used for them
+        ('fp.IEEEContext(8, 16)', '(float 8 16)', 'nearestEven'), ('fp.IEEEContext(6, 16, fp.RM.RTZ)', '(float 6 16)', 'toZero'),
+        ('fp.IEEEContext(5, 32)', '(float 5 32)', 'nearestEven'), ('fp.IEEEContext(8, 64, fp.RM.RTP)', '(float 8 64)', 'toPositive')]
 FUNC_CTXS = [None, None, 'fp.FP32', 'fp.FP16', 'fp.IEEEContext(8, 32, fp.RM.RTP)']
 
 
